@@ -67,9 +67,20 @@ func aminoCall(r aminoReq) any {
 	switch r.Op {
 	case "translate":
 		dst := mkDst(r.Dst, r.Cap)
+		src := unints(r.Src)
+		// where dst and src live: separate allocations; one array with src right behind dst's capacity; src inside dst's spare
+		// capacity (Translate(buf[:0], buf): the translation overwrites the bases already read)
+		translateCalls++
+		switch translateCalls % 4 {
+		case 2:
+			dst, src = sameAlloc(dst, src, 1)
+		case 3: // a header (dst) at the front of the buffer that also holds the sequence
+			buf := append(append([]byte{}, dst...), src...)
+			dst, src = buf[:len(dst)], buf[len(dst):]
+		}
 		orig := dst
 		var out []byte
-		p, _ := catch(func() { out = sequtil.Translate(dst, unints(r.Src)) })
+		p, _ := catch(func() { out = sequtil.Translate(dst, src) })
 		ev := evTranslate{Op: r.Op, Dst: nn(r.Dst), Cap: r.Cap, Src: nn(r.Src), Panic: p, Out: []int{}, DstAfter: ints(orig)}
 		if !p {
 			ev.Out = ints(out)
@@ -90,7 +101,15 @@ func aminoCall(r aminoReq) any {
 		return ev
 	case "frames":
 		var out [3][]byte
-		p, _ := catch(func() { out = sequtil.TranslateReadingFrames(unints(r.Seq)) })
+		p, _ := catch(func() {
+			out = sequtil.TranslateReadingFrames(unints(r.Seq))
+			// the consumer appends to the frames it was given, first to last: an append to one frame must not reach another
+			n0, n1, n2 := len(out[0]), len(out[1]), len(out[2])
+			grown(out[0])
+			grown(out[1])
+			grown(out[2])
+			out[0], out[1], out[2] = out[0][:n0], out[1][:n1], out[2][:n2]
+		})
 		ev := evFrames{Op: r.Op, Seq: nn(r.Seq), Panic: p, Out: [][]int{}}
 		if !p {
 			ev.Out = [][]int{ints(out[0]), ints(out[1]), ints(out[2])}
@@ -107,6 +126,8 @@ func aminoCall(r aminoReq) any {
 	}
 	panic("amino: bad op " + r.Op)
 }
+
+var translateCalls int
 
 func aminoDrive(args []string) error {
 	if err := need(args, 3, "amino-drive <out.ndjson> <maxlen> <maxframe> [part nparts]"); err != nil {
